@@ -30,9 +30,16 @@ func (s *Struct) Build(gen Generator, ctx *MethodContext, sourceID *xtype.JenID,
 }
 
 func (s *Struct) Assign(gen Generator, ctx *MethodContext, assignTo *AssignTo, sourceID *xtype.JenID, source, target *xtype.Type, errPath ErrorPath) ([]jen.Code, *Error) {
-	additionalFieldSources, err := parseAutoMap(ctx, source)
-	if err != nil {
-		return nil, err
+	// autoMap is a field setting of the method: like goverter:map and
+	// goverter:ignore it only applies to the struct the method converts, not
+	// to unnamed structs nested in it.
+	var additionalFieldSources []xtype.FieldSources
+	if ctx.FieldsTarget == target.String {
+		var err *Error
+		additionalFieldSources, err = parseAutoMap(ctx, source)
+		if err != nil {
+			return nil, err
+		}
 	}
 
 	stmt := []jen.Code{}
